@@ -53,8 +53,10 @@ def run(res, prop, tier, seed, work, replay=None):
                               {"engine": "pool", "signature": sig, "seed": seed, "tier": tier, "edge": e}) if who == prop else ""
         res.mismatch(who, sig, "history %d step %d: block '%s' was %s by the real node (%s); Ledger.tla says: %s"
                      % (e["hist"], e["step"], mut, e["res"], e.get("err", "")[:80], reason), rp)
-    if dead:
+    if dead and not res.mismatches:
         raise Infra("%d hand-made valid block(s) were rejected: the histories cannot be driven" % dead)
+    if dead:
+        print("NOTE: %d hand-made valid block(s) were rejected by the node (no clause of %s; the history ends there)" % (dead, prop))
     if prop == "C06":
         gossip.run(res, prop, tier, seed, work)      # injection over the wire: the same pool, reached through GIVT
     recs = vlib.read_ndjson(pool)
